@@ -24,7 +24,9 @@ class LockFile:
         except FileExistsError:
             self.fd = os.open(self.filename, os.O_RDWR | os.O_CLOEXEC)
         else:
-            os.write(self.fd, bytes(maximum - minimum))
+            # only size the file: a participant that opened it meanwhile
+            # may already have stored its counter
+            os.ftruncate(self.fd, maximum - minimum)
 
     def close(self):
         os.close(self.fd)
